@@ -15,13 +15,25 @@
 (*               older than the lifetime                                          *)
 (*   Age(n)      environment: time passes beyond the lifetime of n's last use      *)
 (*                                                                              *)
+(* The reaper is an action of its own (in the code: a timer goroutine): it can run  *)
+(* between ANY two steps of any round trip - before the insert, between the insert  *)
+(* and the first use of a brand-new transport, between two uses, after the entry    *)
+(* has aged.  It reads lastUsed of EVERY transport in the map (an unstamped one      *)
+(* makes it panic: the load of the nil atomic value), so the design requirement is   *)
+(* that a transport becomes visible in the map only together with its first         *)
+(* lastUsed stamp.  TouchOutside = FALSE is the code (insert and lastUsed.Store in    *)
+(* ONE critical section).  TouchOutside = TRUE is the design that leaves the critical *)
+(* section after the insert and stamps lastUsed afterwards (pc "touch"):              *)
+(* TransportCache_touchoutside.cfg shows the reaper meeting the unstamped transport   *)
+(* (ReaperNeverMeetsAnUnstampedTransport is refuted) - insert ; Reaper ; Touch.       *)
+(*                                                                              *)
 (* The map is modelled as a SET of transports [name, id, aged, init, used] so      *)
 (* that "one transport per TLS name" is a property and not an artefact of the      *)
 (* representation.  `init`: the embedded http.Transport with its TLS server name    *)
 (* is built; `used`: lastUsed has been stored (reaper would panic on a nil load).  *)
 EXTENDS Integers, FiniteSets, TLC
 
-CONSTANTS Procs, Names, MaxCalls, MaxAge, MaxReap, Faults, SplitGet
+CONSTANTS Procs, Names, MaxCalls, MaxAge, MaxReap, Faults, SplitGet, TouchOutside
 
 VARIABLES cache,    \* set of transports in the map
           nid,      \* transport identities handed out so far
@@ -30,10 +42,11 @@ VARIABLES cache,    \* set of transports in the map
           ncalls,
           gets,     \* history: number of Get steps of the current call of each process
           reaped,   \* history: the transports deleted by the reaper, as they were when deleted
-          handed    \* history: per process, the transport record as it was when handed out
+          handed,   \* history: per process, the transport record as it was when handed out
+          metraw    \* history: the unstamped transports (lastUsed never stored) a reaper pass has come across
 
 mech == <<cache, nid, nage, nreap, loc, ncalls>>
-vars == <<cache, nid, nage, nreap, loc, ncalls, gets, reaped, handed>>
+vars == <<cache, nid, nage, nreap, loc, ncalls, gets, reaped, handed, metraw>>
 
 NoTr == [name |-> "", id |-> 0, aged |-> FALSE, init |-> FALSE, used |-> FALSE]
 IdleLoc == [pc |-> "idle", name |-> "", held |-> 0, retried |-> FALSE, left |-> 1, status |-> ""]
@@ -46,6 +59,7 @@ Init ==
   /\ gets = [p \in Procs |-> 0]
   /\ reaped = {}
   /\ handed = [p \in Procs |-> NoTr]
+  /\ metraw = {}
 
 (* SplitGet = FALSE is the code: lookup, creation on a miss and lastUsed.Store are ONE critical section.     *)
 (* SplitGet = TRUE is the design that looks the name up under a read lock and, on a miss, creates and      *)
@@ -56,18 +70,39 @@ GetBody(p, l) ==
   IF \E t \in cache : t.name = l.name
   THEN LET t == CHOOSE t \in cache : t.name = l.name
            u == [t EXCEPT !.aged = FALSE, !.used = TRUE]
-       IN /\ cache' = (cache \ {t}) \cup {u}
-          /\ loc' = [loc EXCEPT ![p] = [l EXCEPT !.pc = "send", !.held = t.id, !.status = "run"]]
-          /\ handed' = [handed EXCEPT ![p] = u]
-          /\ UNCHANGED nid
+       IN IF TouchOutside
+          THEN /\ loc' = [loc EXCEPT ![p] = [l EXCEPT !.pc = "touch", !.held = t.id, !.status = "run"]]
+               /\ UNCHANGED <<cache, nid, handed>>
+          ELSE /\ cache' = (cache \ {t}) \cup {u}
+               /\ loc' = [loc EXCEPT ![p] = [l EXCEPT !.pc = "send", !.held = t.id, !.status = "run"]]
+               /\ handed' = [handed EXCEPT ![p] = u]
+               /\ UNCHANGED nid
   ELSE IF SplitGet
        THEN /\ loc' = [loc EXCEPT ![p] = [l EXCEPT !.pc = "create", !.status = "run"]]
             /\ UNCHANGED <<cache, nid, handed>>
-       ELSE LET u == [name |-> l.name, id |-> nid + 1, aged |-> FALSE, init |-> TRUE, used |-> TRUE]
+       ELSE LET u == [name |-> l.name, id |-> nid + 1, aged |-> FALSE, init |-> TRUE, used |-> ~TouchOutside]
             IN /\ cache' = cache \cup {u}
                /\ nid' = nid + 1
-               /\ loc' = [loc EXCEPT ![p] = [l EXCEPT !.pc = "send", !.held = nid + 1, !.status = "run"]]
-               /\ handed' = [handed EXCEPT ![p] = u]
+               /\ IF TouchOutside
+                  THEN /\ loc' = [loc EXCEPT ![p] = [l EXCEPT !.pc = "touch", !.held = nid + 1, !.status = "run"]]
+                       /\ UNCHANGED handed
+                  ELSE /\ loc' = [loc EXCEPT ![p] = [l EXCEPT !.pc = "send", !.held = nid + 1, !.status = "run"]]
+                       /\ handed' = [handed EXCEPT ![p] = u]
+
+(* only with TouchOutside: transport.lastUsed.Store(time.Now()) AFTER the critical section, on the object the  *)
+(* caller was handed (which the reaper may have deleted from the map in between: the store then goes to the  *)
+(* orphan and the map is unchanged)                                                                        *)
+Touch(p) ==
+  /\ loc[p].pc = "touch"
+  /\ IF \E t \in cache : t.id = loc[p].held
+     THEN LET t == CHOOSE t \in cache : t.id = loc[p].held
+              u == [t EXCEPT !.aged = FALSE, !.used = TRUE]
+          IN /\ cache' = (cache \ {t}) \cup {u}
+             /\ handed' = [handed EXCEPT ![p] = u]
+     ELSE /\ UNCHANGED cache
+          /\ handed' = [handed EXCEPT ![p] = [name |-> loc[p].name, id |-> loc[p].held, aged |-> FALSE, init |-> TRUE, used |-> TRUE]]
+  /\ loc' = [loc EXCEPT ![p] = [@ EXCEPT !.pc = "send"]]
+  /\ UNCHANGED <<nid, nage, nreap, ncalls, gets, reaped, metraw>>
 
 (* only with SplitGet: the second critical section; the map assignment replaces whatever is stored for the name *)
 CreateNoRecheck(p) ==
@@ -77,7 +112,7 @@ CreateNoRecheck(p) ==
         /\ nid' = nid + 1
         /\ loc' = [loc EXCEPT ![p] = [@ EXCEPT !.pc = "send", !.held = nid + 1]]
         /\ handed' = [handed EXCEPT ![p] = u]
-  /\ UNCHANGED <<nage, nreap, ncalls, gets, reaped>>
+  /\ UNCHANGED <<nage, nreap, ncalls, gets, reaped, metraw>>
 
 Call(p, n) ==
   /\ loc[p].pc = "idle"
@@ -85,18 +120,18 @@ Call(p, n) ==
   /\ ncalls' = [ncalls EXCEPT ![p] = @ + 1]
   /\ gets' = [gets EXCEPT ![p] = 1]
   /\ GetBody(p, [IdleLoc EXCEPT !.name = n])
-  /\ UNCHANGED <<nage, nreap, reaped>>
+  /\ UNCHANGED <<nage, nreap, reaped, metraw>>
 
 GetAgain(p) ==
   /\ loc[p].pc = "get"
   /\ gets' = [gets EXCEPT ![p] = @ + 1]
   /\ GetBody(p, loc[p])
-  /\ UNCHANGED <<nage, nreap, ncalls, reaped>>
+  /\ UNCHANGED <<nage, nreap, ncalls, reaped, metraw>>
 
 SendOk(p) ==
   /\ loc[p].pc = "send"
   /\ loc' = [loc EXCEPT ![p] = [@ EXCEPT !.pc = "idle", !.status = "ok", !.held = 0]]
-  /\ UNCHANGED <<cache, nid, nage, nreap, ncalls, gets, reaped, handed>>
+  /\ UNCHANGED <<cache, nid, nage, nreap, ncalls, gets, reaped, handed, metraw>>
 
 SendFail(p) ==
   /\ Faults
@@ -106,25 +141,26 @@ SendFail(p) ==
      ELSE IF ~loc[p].retried
           THEN loc' = [loc EXCEPT ![p] = [@ EXCEPT !.pc = "get", !.retried = TRUE, !.left = 2, !.held = 0]]
           ELSE loc' = [loc EXCEPT ![p] = [@ EXCEPT !.pc = "idle", !.status = "err", !.held = 0]]
-  /\ UNCHANGED <<cache, nid, nage, nreap, ncalls, gets, reaped, handed>>
+  /\ UNCHANGED <<cache, nid, nage, nreap, ncalls, gets, reaped, handed, metraw>>
 
 Reaper ==
   /\ nreap < MaxReap
   /\ nreap' = nreap + 1
   /\ cache' = {t \in cache : ~t.aged}
   /\ reaped' = reaped \cup {t \in cache : t.aged}
+  /\ metraw' = metraw \cup {t \in cache : ~t.used}     \* lastUsed.Load().(time.Time) of each transport in the map
   /\ UNCHANGED <<nid, nage, loc, ncalls, gets, handed>>
 
 Age(n) ==
   /\ nage < MaxAge
-  /\ \E t \in cache : t.name = n /\ ~t.aged /\ cache' = (cache \ {t}) \cup {[t EXCEPT !.aged = TRUE]}
+  /\ \E t \in cache : t.name = n /\ t.used /\ ~t.aged /\ cache' = (cache \ {t}) \cup {[t EXCEPT !.aged = TRUE]}
   /\ nage' = nage + 1
-  /\ UNCHANGED <<nid, nreap, loc, ncalls, gets, reaped, handed>>
+  /\ UNCHANGED <<nid, nreap, loc, ncalls, gets, reaped, handed, metraw>>
 
 Terminated == \A p \in Procs : loc[p].pc = "idle" /\ ncalls[p] = MaxCalls
 Done == Terminated /\ UNCHANGED vars
 
-Step(p) == GetAgain(p) \/ CreateNoRecheck(p) \/ SendOk(p) \/ SendFail(p)
+Step(p) == GetAgain(p) \/ CreateNoRecheck(p) \/ Touch(p) \/ SendOk(p) \/ SendFail(p)
 Next == \/ \E p \in Procs : Step(p)
         \/ \E p \in Procs, n \in Names : Call(p, n)
         \/ Reaper
@@ -137,7 +173,7 @@ View == mech
 
 (* ------------------------------ properties ------------------------------ *)
 TypeOK == /\ \A t \in cache : t.name \in Names /\ t.id \in 1..nid
-          /\ \A p \in Procs : loc[p].pc \in {"idle", "get", "create", "send"}
+          /\ \A p \in Procs : loc[p].pc \in {"idle", "get", "create", "touch", "send"}
 
 OneTransportPerName == \A t1, t2 \in cache : t1.name = t2.name => t1 = t2
 IdentitiesNeverReused == \A t1, t2 \in cache \cup reaped : t1.id = t2.id => t1.name = t2.name
@@ -155,6 +191,10 @@ CallersShareTheCachedTransport ==
 SameNameSameTransport ==
   \A p, q \in Procs : (loc[p].pc = "send" /\ loc[q].pc = "send" /\ loc[p].name = loc[q].name
                         /\ loc[p].held # loc[q].held) => \E t \in reaped : t.id \in {loc[p].held, loc[q].held}
+(* The reaper loads lastUsed of every transport it finds in the map: whatever the interleaving of reaper    *)
+(* passes with the steps of the round trips, it never finds one whose lastUsed was not stored yet (in the   *)
+(* code that load panics inside the timer goroutine and takes the process down).                              *)
+ReaperNeverMeetsAnUnstampedTransport == metraw = {}
 BoundedRetries == \A p \in Procs : gets[p] <= 3
 OnlyAgedAreReaped == \A t \in reaped : t.aged
 EveryCallReturns == \A p \in Procs : (loc[p].pc # "idle") ~> (loc[p].pc = "idle")
